@@ -183,8 +183,8 @@ CHECKS = {
         # open findings: TxGet with an out-of-limit key drops the handle without rollback (D14);
         # Get/TxGet report every engine error as found=false
         "env": {"VERIF_OFF": "reject_on_open_handle,engine_error_mapping"},
-        "quick": {"shards": 16, "rounds": 2, "checks": 300, "timeout": 900},
-        "thorough": {"shards": 16, "rounds": 12, "checks": 500, "timeout": 3000},
+        "quick": {"shards": 16, "rounds": 2, "checks": 250, "timeout": 900},
+        "thorough": {"shards": 16, "rounds": 10, "checks": 400, "timeout": 3000},
         "assumptions": [
             "one client issues one request at a time; requests that wait for the process-wide transaction lock by design are never issued (the lock state is probed with TryLock before every request)",
             "the embedded answer is taken from a twin engine (same configuration, same operations through the embedded API); the background flush is quiesced on both engines after every write",
